@@ -329,6 +329,39 @@ class CoopLock(object):
         self.release()
 
 
+class HybridLock(CoopLock):
+    """What ``threading.Lock`` is while eliot is being imported (vkit/world.py): a lock created at import,
+    class-definition or decoration time is then under the scheduler's control like the ones created later
+    through the patched module attribute.  Outside a scheduled execution it is an ordinary blocking lock."""
+
+    def __init__(self):
+        CoopLock.__init__(self)
+        import _thread
+
+        self._real = _thread.allocate_lock()
+
+    def acquire(self, blocking=True, timeout=-1):
+        s = CURRENT
+        if s is not None and s.me() is not None:
+            return CoopLock.acquire(self, blocking, timeout)
+        ok = self._real.acquire(blocking, timeout)
+        if ok:
+            self.held = True
+            self.owner = threading.current_thread()
+        return ok
+
+    def release(self):
+        s = CURRENT
+        if s is not None and s.me() is not None:
+            return CoopLock.release(self)
+        if not self.held:
+            raise RuntimeError("release unlocked lock")
+        self.held = False
+        self.owner = None
+        if self._real.locked():
+            self._real.release()
+
+
 class CoopQueue(object):
     """Cooperative stand-in for queue.SimpleQueue: FIFO, atomic put/get;
     get on empty blocks (thread not enabled)."""
